@@ -1116,6 +1116,31 @@ class Evaluator:
                     self.call(init, self._bind(init, args, kws, cname), None, depth + 1, selfobj=obj)
                 return obj
             return ("new", cname, tuple(freeze(a) for a in args), tuple(sorted((k, freeze(v)) for k, v in kws.items())))
+        if isinstance(fn, ast.Attribute):
+            # a method of a concrete container / string that the extractor has no model for must not be skipped silently
+            # (an unmodelled `.update()` would leave the table with the old content and a wrong verdict)
+            try:
+                rv_ = self.expr(fn.value, env, f, depth)
+            except (AnalysisError, Raised, Fork):
+                rv_ = None
+            if type(rv_) in (set, frozenset) and fn.attr in ("update", "union", "intersection", "difference", "copy", "issubset", "issuperset",
+                                                              "isdisjoint", "clear", "pop", "remove", "discard", "add") \
+                    and all(isinstance(a, (set, frozenset, list, tuple, dict, str)) or fn.attr in ("remove", "discard", "add") for a in args) and not kws:
+                try:
+                    out_ = getattr(rv_, fn.attr)(*[set(a) if isinstance(a, (list, tuple)) and fn.attr not in ("update",) else a for a in args])
+                except KeyError:
+                    raise Raised("KeyError")
+                return out_
+            if type(rv_) is dict and fn.attr in ("update", "copy", "clear", "popitem") and not kws and all(isinstance(a, dict) for a in args):
+                return getattr(rv_, fn.attr)(*args)
+            if type(rv_) is list and fn.attr in ("copy", "reverse", "count", "index") and not kws:
+                try:
+                    return getattr(rv_, fn.attr)(*args)
+                except ValueError:
+                    raise Raised("ValueError")
+            if type(rv_) in (set, frozenset, dict, list, str):
+                raise AnalysisError("method .%s() of a concrete %s is not modelled by the table extractor (%s)" % (
+                    fn.attr, type(rv_).__name__, f.loc(e)))
         if cs is not None and cs.kind in ("ext", "builtin", "byname", "unresolved"):
             return Opaque("call")
         raise AnalysisError("call %s not supported by the table extractor (%s)" % (ast.unparse(e)[:40], f.loc(e)))
